@@ -24,3 +24,19 @@ package bgv
 //@ copy Encoder.ShallowCopy
 //@   shared parameters indexMatrix paramsQP qHalf tInvModQ
 //@   fresh bufQ bufT bufB
+
+// ---- bgv.NewParameters: an accepted plaintext modulus is non-zero and is not one of the moduli of Q (property C19) ----
+// chainid(p): the identity of the modulus chain of a parameter set; chainof(s): the chain a slice
+// returned by Parameters.Q() lists; memb(c, v): v is one of the moduli of chain c.
+//@ ghost chainid(p) int
+//@ ghost chainof(s) int
+//@ ghost memb(c, v) bool
+
+//@ afunc ext:slices.Contains
+//@   trusted slices.Contains reports membership
+//@   ensures iff(result, memb(chainof(s), v))
+
+//@ afunc NewParameters
+//@   property C19
+//@   loopabs
+//@   ensures implies(isnil(err), t != 0 && !memb(chainid(rlweParams), t))
